@@ -9,6 +9,20 @@ import json, os, re, subprocess, sys, time, glob, shlex
 
 VERIF = os.path.dirname(os.path.dirname(os.path.abspath(__file__)))
 
+def save_evidence():
+    """the checks rewrite evidence/<id>.json on every run: runs against a patched /repo must not leave theirs behind"""
+    import shutil, tempfile
+    d = tempfile.mkdtemp(prefix="evid_keep_")
+    for f in glob.glob(os.path.join(VERIF, "evidence", "*.json")):
+        shutil.copy2(f, d)
+    return d
+
+def restore_evidence(d):
+    import shutil
+    for f in glob.glob(os.path.join(d, "*.json")):
+        shutil.copy2(f, os.path.join(VERIF, "evidence"))
+    shutil.rmtree(d, ignore_errors=True)
+
 def sh(cmd, cwd=None, timeout=1800):
     p = subprocess.run(cmd, shell=True, cwd=cwd, stdout=subprocess.PIPE, stderr=subprocess.STDOUT, text=True, timeout=timeout)
     return p.returncode, p.stdout
@@ -73,6 +87,7 @@ def detect(pdir, ids):
     rc, out = sh("git -C /repo apply %s" % os.path.join(pdir, "patch.diff"))
     if rc != 0:
         return {"error": "patch does not apply to /repo: " + out[-300:]}
+    keep = save_evidence()
     try:
         for pid in ids:
             t = time.time()
@@ -89,6 +104,7 @@ def detect(pdir, ids):
                         pass
     finally:
         sh("git -C /repo checkout -- .")
+        restore_evidence(keep)
     return res
 
 def main():
